@@ -4,6 +4,8 @@
 #include "nmtools/array/view/ufuncs/add.hpp"
 #include "nmtools/array/view/where.hpp"
 #include "nmtools/array/view/broadcast_arrays.hpp"
+#include "nmtools/array/view/tile.hpp"
+#include "nmtools/array/view/ufuncs/add.hpp"
 static constexpr size_t NA = (size_t)-1;
 template <typename T> static inline size_t tv(const T& v){ if constexpr (meta::is_fail_v<T>) return NA; else return (size_t)v; }
 template <typename V> static inline void static_traits(size_t* t){
@@ -44,3 +46,19 @@ KERNEL int K(k_trb_bcast3_0)(SIGB){ unsigned a[1][3]; fill_n(&a[0][0], cdata, 3)
 KERNEL int K(k_trb_bcast3_1)(SIGB){ unsigned a[1][3]; fill_n(&a[0][0], cdata, 3); unsigned f[1] = {cdata[3]}; MKH2; return nth_traits<1>(view::broadcast_arrays(a,f,b), t, rt); }
 KERNEL int K(k_trb_bcast3_2)(SIGB){ unsigned a[1][3]; fill_n(&a[0][0], cdata, 3); unsigned f[1] = {cdata[3]}; MKH2; return nth_traits<2>(view::broadcast_arrays(a,f,b), t, rt); }
 KERNEL int K(k_trb_bcast3h_0)(SIGB){ unsigned a[1][3]; fill_n(&a[0][0], cdata, 3); unsigned f[1] = {cdata[3]}; MKH2; return nth_traits<0>(view::broadcast_arrays(b,f,a), t, rt); }
+
+// tile of a BOUNDED-DIM operand (static_vector<size_t,3> shape, run-time dim 1..3) with a fixed-length reps list that is LONGER than the dim bound (4 entries), and one of equal length (3)
+using b3_t = na::ndarray_t<na::static_vector<unsigned,16>, na::static_vector<size_t,3>>;
+KERNEL int K(k_trt_tile4_b3)(const size_t* shape, size_t dim, const unsigned* data, const size_t* reps, size_t* t, size_t* rt){
+  b3_t a; if (!a.resize(mk_sv<size_t,3>(shape, dim))) return -1; fill(a, data); return stat_vs_run(view::tile(a, mk_arr<size_t,4>(reps)), t, rt); }
+KERNEL int K(k_trt_tile3_b3)(const size_t* shape, size_t dim, const unsigned* data, const size_t* reps, size_t* t, size_t* rt){
+  b3_t a; if (!a.resize(mk_sv<size_t,3>(shape, dim))) return -1; fill(a, data); return stat_vs_run(view::tile(a, mk_arr<size_t,3>(reps)), t, rt); }
+// tile of a hybrid (fixed dim 2) operand with bounded-length reps (static_vector<size_t,4>, 1..4 entries)
+KERNEL int K(k_trt_tile_sv_h2)(const size_t* shape, size_t nreps, const unsigned* data, const size_t* reps, size_t* t, size_t* rt){
+  h2_t a; if (!mk2(a,shape,data)) return -1; return stat_vs_run(view::tile(a, mk_sv<size_t,4>(reps, nreps)), t, rt); }
+
+// outer ufunc of two hybrid operands with DIFFERENT capacities (size bounds 4 and 16): the view's size type is computed from both bounds
+KERNEL int K(k_trt_outer_h4_h16)(const size_t* sa, const unsigned* da, const size_t* sb, const unsigned* db, size_t* t, size_t* rt){
+  hyb_t<unsigned,4,2> a; h2_t b; if (!mk2(a,sa,da) || !mk2(b,sb,db)) return -1; return stat_vs_run(view::outer_add(a, b), t, rt); }
+KERNEL int K(k_trt_outer_h16_h4)(const size_t* sa, const unsigned* da, const size_t* sb, const unsigned* db, size_t* t, size_t* rt){
+  h2_t a; hyb_t<unsigned,4,2> b; if (!mk2(a,sa,da) || !mk2(b,sb,db)) return -1; return stat_vs_run(view::outer_add(a, b), t, rt); }
